@@ -14,8 +14,14 @@ for d in sorted((root / "seeded").iterdir()):
     rows.append(f"| `{d.name}` | {one(m['summary'], 260)} | {one(m['needs'], 220)} | {', '.join(m['caught_by']) or '—'} | {one(m.get('strengthened'), 240)} |")
 text = """## Appendix B — seeded changes the checks were tested against
 
-Each change below was written by a fresh sub-agent that saw only the text of one property and its own scratch worktree
-of /repo (nothing from /verif). I kept a change only after confirming (tools/confirm_seeded.py) that its demonstration
+Each change below was written by a fresh sub-agent that worked in its own scratch worktree of /repo and saw the text of
+one property — nothing of /verif's code, checks, evidence or results. Rounds a–d got exactly that. To get *different and
+harder* changes the later rounds were told more, none of it about what the checks can detect: from round e on the prompt
+listed one-line summaries of the changes earlier sub-agents had made for the same property ("do not repeat these"), and
+from round g on it also said, in general terms, that a strong randomised differential tester with direct oracles exists
+(small player counts, random histories, 1–16 processes, the usual value kinds) and asked for changes such a tester is
+likely to miss (interactions of two features, thresholds, argument forms, aliasing, first-use order, numeric edge
+values); round i–j added "also consider helper modules outside the obvious file". I kept a change only after confirming (tools/confirm_seeded.py) that its demonstration
 passes on the clean tree and fails with the change, and that the existing suite still passes with it (pinned command;
 the PPO-training modules, ~17 of the suite's 20 minutes, deselected). `seeded/<id>/` holds `patch.diff`, `demo.py`
 and `meta.json` (what it needs to manifest, what was run, which checks fire). "Strengthened" says what the check was
